@@ -11,7 +11,7 @@ RULE = ("trees of C01 (a fifth of them with one malformed file) x callback polic
         "that a rejection gives the callback code, no history and no entries; distinct by scenario")
 
 def gen(rng, tier):
-    n = 1500 if tier == "quick" else 20000
+    n = 1500 if tier == "quick" else 50000
     out = []
     for _ in range(n):
         st = laylib.setup(rng, mode=rng.choice([0, 0, 1, 2, 3]), popts=True, relative=rng.random() < 0.2)
